@@ -77,11 +77,13 @@ TABLES = {
     "T3": [["a", "int", [1, 2, 3]], ["b", "str", ["x", None, "z"]], ["c", "float", [1.5, 2.5, None]]],
     "T3r": [["c", "float", [0.5, None]], ["b", "str", ["u", "v"]], ["a", "int", [7, 8]]],
     "T0": [["a", "int", []], ["b", "str", []], ["c", "float", []]],
+    # keys b and c are absent from the FIRST record when written ragged (a reader must not learn the key set from record 0)
+    "T3f": [["a", "int", [1, 2, 3]], ["b", "str", [None, "y", "z"]], ["c", "float", [None, 2.5, None]]],
     "T4": [["a", "int", [1, 2, 3]], ["b", "str", ["x", None, "z"]], ["d", "str", ["7", "8", "9"]], ["e", "bool", [True, False, True]]],
     "T5": [["a", "int", [1, 2]], ["b", "str", ["x", "y"]], ["c", "float", [1.5, None]],
            ["t", "date", ["2020-02-29", "1970-01-01"]], ["e", "bool", [True, None]]],
 }
-TABLE_ORDER = {"quick": ["T1", "T2", "T0", "T3", "T3r", "T4"], "thorough": ["T1", "T2", "T0", "T3", "T3r", "T4", "T5"]}
+TABLE_ORDER = {"quick": ["T1", "T2", "T0", "T3", "T3f", "T3r", "T4"], "thorough": ["T1", "T2", "T0", "T3", "T3f", "T3r", "T4", "T5"]}
 
 
 def files_for(fmt, tier):
@@ -99,7 +101,7 @@ def files_for(fmt, tier):
                 out.append({"fmt": "csv", "cols": cols, "sep": "\t", "header": True, "encoding": "utf-16"})
         elif fmt in ("json", "geojson"):
             out.append({"fmt": fmt, "cols": cols, "ragged": False, "encoding": "utf-8"})
-            if t in ("T3", "T5"):
+            if t in ("T3", "T3f", "T5"):
                 out.append({"fmt": fmt, "cols": cols, "ragged": True, "encoding": "utf-8"})
             if t == "T2":
                 out.append({"fmt": fmt, "cols": cols, "ragged": False, "encoding": "latin-1"})
